@@ -225,8 +225,10 @@ class LangGen:
             return None
         fields = st.fields(t)
         choices = []
-        if fields:
-            choices += ['field'] * 4 + ['collect'] * 3 + ['setop'] * 3 + ['trans'] * 2 + ['sub'] * 2
+        if fields and depth <= 1:
+            choices += ['field'] * 4 + ['trans'] * 1
+        elif fields:
+            choices += ['field'] * 2 + ['collect'] * 3 + ['setop'] * 3 + ['trans'] * 2 + ['sub'] * 2
         if allow_var and st.variables(t):
             choices += ['var'] * 2
         if not choices:
@@ -242,16 +244,16 @@ class LangGen:
             u = self.type_of(st, owner, e)
             return (V(v), u) if u else None
         if k == 'collect':
-            l = self.nav(st, t, max(1, depth - 1), allow_var)
+            l = self.nav(st, t, depth - 1, allow_var)
             if l is None:
                 return None
-            r = self.nav(st, l[1], max(1, depth - 1), allow_var)
+            r = self.nav(st, l[1], depth - 1, allow_var)
             if r is None:
                 return l
             return CO(l[0], r[0]), r[1]
         if k == 'setop':
-            l = self.nav(st, t, max(1, depth - 1), allow_var)
-            r = self.nav(st, t, max(1, depth - 1), allow_var)
+            l = self.nav(st, t, depth - 1, allow_var)
+            r = self.nav(st, t, depth - 1, allow_var)
             if l is None or r is None:
                 return l or r
             lca = st.lca(l[1], r[1])
@@ -272,7 +274,7 @@ class LangGen:
             f = rng.choice(cands)
             return T(F(f)), fields[f]
         if k == 'sub':
-            inner = self.nav(st, t, max(1, depth - 1), allow_var)
+            inner = self.nav(st, t, depth - 1, allow_var)
             if inner is None:
                 return None
             subs = [x for x in st.subs(inner[1]) if x != inner[1]]
